@@ -7,20 +7,13 @@ From Coq Require Import ZifyN ZifyNat ZifyBool.
 From FitV Require Import Model.Values Model.Bytes Model.Base Model.Profile Model.Crc Model.Header
   Model.Components Model.Route Model.Encode Spec.CrcSpec Spec.Grammar Spec.RoundTrip
   Proofs.Util Proofs.CrcProofs Proofs.EncodeProofs Gen.Consts Gen.ProfileData Gen.RoutingData.
+(* fsize, field_out and the record layout functions are executable definitions of Spec/EncLayout.v *)
+From FitV Require Export Spec.EncLayout.
 Import ListNotations.
 Local Open Scope N_scope.
 Ltac Zify.zify_post_hook ::= Z.div_mod_to_equations.
 
 (* ---------------------------------------------------------------- what the profile must satisfy *)
-(* the size byte writeDefMesg writes for a profile entry *)
-Definition fsize (pf : pfield) : N :=
-  let bt := fit_base (pf_t pf) in
-  match b_size bt with
-  | Some bs => if bt =? base_string then pf_length pf
-               else if fit_array (pf_t pf) then (bs mod 256 * pf_length pf) mod 256 else bs mod 256
-  | None => 0
-  end.
-
 (* bytes binary.Write emits for one value of a scalar Go type *)
 Definition scalar_size (ty : gotype) : option N :=
   match ty with
@@ -257,13 +250,6 @@ Proof.
 Qed.
 
 (* ---------------------------------------------------------------- data records *)
-(* the bytes writeMesg writes for one field of the definition *)
-Definition field_out (be : bool) (m : msg) (pf : pfield) : eres (list N) :=
-  match nth_error (m_fields m) (pf_sindex pf), field_type (m_num m) (pf_sindex pf) with
-  | Some v, Some ty => write_field be pf ty v
-  | _, _ => EPanic 2
-  end.
-
 Definition grec_of (be : bool) (gmn : N) (fields : list pfield) (parts : list (list N)) : grec :=
   mk_grec gmn be (map (fun x => (pf_num (fst x), fit_base (pf_t (fst x)), snd x)) (combine fields parts)).
 
